@@ -58,12 +58,21 @@ func (h *Handler6) findOrCreateRouter(mac net.HardwareAddr, ip netip.Addr) (rout
 
 func (h *Handler6) FindRouter(ip netip.Addr) Router {
 	h.Mutex.Lock()
+	defer h.Mutex.Unlock()
 	r := h.LANRouters[ip]
-	h.Mutex.Unlock()
-	if r != nil {
-		return *r
+	if r == nil {
+		return Router{}
 	}
-	return Router{}
+	// the caller owns the result: no slice of it is the router table's
+	c := *r
+	c.Addr.MAC = packet.CopyMAC(c.Addr.MAC)
+	c.Options = r.Options.Copy()
+	c.Prefixes = c.Options.Prefixes
+	if r.RDNSS != nil {
+		rdnss := packet.NewOptions{RDNSS: *r.RDNSS}.Copy().RDNSS
+		c.RDNSS = &rdnss
+	}
+	return c
 }
 
 type RADVS struct {
